@@ -81,7 +81,10 @@ def abstract_mul(e):
     cache = {}
 
     def isnum(x):
-        return z3.is_int_value(x) or z3.is_rational_value(x)
+        if z3.is_int_value(x) or z3.is_rational_value(x):
+            return True
+        # (to_real 4): an integer literal cast to double in the C source is a numeral too
+        return z3.is_app(x) and x.decl().kind() == z3.Z3_OP_TO_REAL and z3.is_int_value(x.arg(0))
 
     def rec(x):
         k = x.get_id()
